@@ -276,6 +276,29 @@ def run(ctx):
         ok = not s.fn.in_loop(s.bb) and not any(s.fn.can_reach(s.bb, o.bb) for o in others)
         ctx.ob('C07.5', s.fn, 'job-ended-once', ok, 'append_job_ended site is outside loops and cannot be followed by another one', line=s.line)
 
+    # the job runner ends the job itself on every path after the summariser ran (C09.1): a caller
+    # that ends it again after the runner returned produces a second job_ended frame
+    ended_fns = set()
+    cg = P.callgraph()
+    rev = {}
+    for a_, outs in cg.items():
+        for b_ in outs:
+            rev.setdefault(b_, set()).add(a_)
+    work = ['ripd::continuities::ContinuityStore::append_job_ended']
+    while work:
+        x = work.pop()
+        if x in ended_fns:
+            continue
+        ended_fns.add(x)
+        work.extend(rev.get(x, ()))
+    for s in P.callers(r'ContinuityStore::compaction_auto_run_spawned_job_v1$'):
+        g = s.fn
+        after = g.reach_from_after(s.bb)
+        again = [c for c in g.sites() if c.bb in after and c.callee in ended_fns and c.bb != s.bb and not c.callee.endswith('compaction_auto_run_spawned_job_v1')]
+        ctx.ob('C07.5', g, 'no-second-end-after-runner', not again,
+               'after the job runner returned %s' % ('nothing in the caller can append another job_ended' if not again else
+                                                     '%s can append a SECOND continuity_job_ended for a job the runner already ended' % again[0].name), line=again[0].line if again else s.line)
+
     # ---------------------------------------------------------------- C07.6
     hooks = [s for s in P.callers(r'^rip_kernel::Runtime::register_hook$|^rip_kernel::hooks::HookEngine::register$') if not s.fn.path.startswith('rip_kernel::')]
     ctx.ob('C07.6', 'workspace', 'no-production-hooks', not hooks, 'Runtime::register_hook callers outside rip_kernel: %s' % [s.fn.path for s in hooks])
